@@ -10,7 +10,7 @@ from ..absint import EvalRaise, EvalReturn, Evaluator, Opaque, Unknown
 from ..cfg import CFG, Node, describe_path, no_exc
 from ..effects import CONST, FRESH, SELF, Eff
 from ..program import FuncInfo, ancestors, enclosing_stmt, norm, parent, walk_local
-from .common import sub_nodes
+from .common import analysis_owned_solver_object, sub_nodes
 
 EXPLANATION = (
     "Decided for all paths: (sync) every write to a reaction's bounds, stoichiometry or identifier (and a "
@@ -445,13 +445,13 @@ def check_owner(ctx) -> None:
             if key in OWNER_EXCEPTIONS:
                 ctx.ok("C01.owner", fn, st, f"frozen exception: {OWNER_EXCEPTIONS[key]}")
                 continue
+            if analysis_owned_solver_object(fn, e.recv):
+                ctx.ok("C01.owner", fn, st, "the solver object is looked up by a literal-prefixed name: added by an analysis helper, not a mirror of model state")
+                continue
             ctx.bad("C01.owner", fn, st, f"{e.cell} of a solver object that mirrors model state is written outside its owner ({', '.join(OWNERS[e.cell])}): the Python side is not told")
 
 
-OWNER_EXCEPTIONS = {
-    ("flux_analysis.fastcc._flip_coefficients", "const.set_linear_coefficients({k: -v for k, v in coefs.items() if k is not var})"):
-        "constraint created by _find_sparse_mode in the same temporary context (looked up by its name template)",
-}
+OWNER_EXCEPTIONS: Dict[Tuple[str, str], str] = {}
 
 
 def _fresh_keys(ctx, fn: FuncInfo, e: Eff) -> bool:
